@@ -21,7 +21,11 @@ try:
         mod = importlib.import_module('props.' + pid)
         ck = Check(pid, tier='quick', level='other', repo=ov, quiet=True)
         try:
-            mod.run(ck)
+            try:
+                mod.run(ck)
+            except AnalysisBroken:
+                if not ck.new_violations():
+                    raise
             ck.finish()
             new = ck.result['new']
             print('%s vs %s: %s' % (os.path.basename(d), pid, 'DETECTED' if new else 'missed'))
